@@ -22,7 +22,7 @@ from mc.checks import c07
 
 ID = "C09"
 LEVEL = "fault_enumeration"
-FAULT_KINDS = ("rc1", "stderr_error", "garbage", "empty", "exception")
+FAULT_KINDS = ("rc1", "rc1_silent", "stderr_error", "garbage", "empty", "exception")
 QUERY_EXES = ("squeue", "sacct", "qstat", "bjobs")
 
 
